@@ -1,13 +1,16 @@
 /-
 C29 — entry-point arguments are validated against parameter types.
 
-Model: `Verif.Model.Import` (port of `importValidatedArguments`, `valueImporter.importValue`,
-`IsImportable`, `ConformsToStaticType`).  All theorems hold for every context `c` (declarations,
-subtype relations, least-common-supertype function).
+Model: `Verif.Model.Import` (port of `importValidatedArguments`, `valueImporter.importValue` and
+its per-kind helpers, `IsImportable`, `ConformsToStaticType`, `BoxOptional`).  Spec:
+`Verif.Spec.Import` (all nested values of a value; the local conditions `ImportableHere`,
+`ConformsHere`).  Every theorem holds for *every* context `c`: any set of declarations, any subtype
+relations, any least-common-supertype function.
 -/
 import Verif.Proofs.Import
+import Verif.Proofs.ImportDeep
 namespace Verif.Properties.C29
-open Verif.Model.Types Verif.Model.Import Verif.Proofs.Import
+open Verif.Model.Types Verif.Model.Import Verif.Spec.Import Verif.Proofs.Import Verif.Proofs.ImportDeep
 
 /-- An accepted argument is importable, its run-time type is a subtype of the parameter type, and it
     conforms to its static type. -/
@@ -15,18 +18,33 @@ theorem import_sound (c : Ctx) (a : Option XV) (t : Ty) (v : IV) (h : importArg 
     importable c v = true ∧ c.subSema (dynType c v) t = true ∧ conforms c v = true :=
   importArg_ok c a t v h
 
+/-- The same, with "importable" and "conforms" spelled out declaratively at every depth: the run-time
+    type of the accepted value is a subtype of the parameter type, and *every* value nested in it
+    (optional payloads, array elements, dictionary keys and values, composite fields, recursively) is
+    neither a capability nor a composite of a non-importable type, and its direct content fits its own
+    static type (element / key / value / field types, constant array size, composite kind, exactly
+    the declared fields). -/
+theorem import_sound_deep (c : Ctx) (a : Option XV) (t : Ty) (v : IV) (h : importArg c a t = .ok v) :
+    c.subSema (dynType c v) t = true ∧ ∀ w ∈ subvalues v, ImportableHere c w ∧ ConformsHere c w := by
+  have hs := importArg_ok c a t v h
+  exact ⟨hs.2.1, fun w hw => ⟨importable_deep c v hs.1 w hw, conforms_deep c v hs.2.2 w hw⟩⟩
+
 /-- The import is total and never ends in an internal error: every argument is either accepted or
-    rejected with one of the invalid-argument *user* errors. -/
+    rejected with one of the invalid-argument *user* errors (decode / import / not importable /
+    wrong type / malformed). -/
 theorem import_total (c : Ctx) (a : Option XV) (t : Ty) :
     (∃ v, importArg c a t = .ok v) ∨ (∃ s, importArg c a t = .user s) :=
   importArg_total c a t
 
-/-- The same for a whole argument list (`importValidatedArguments`): a mismatch of the counts is the
-    parameter-count user error; otherwise every argument is validated. -/
+/-- An argument that does not decode is rejected with the decode user error. -/
+theorem import_undecodable (c : Ctx) (t : Ty) : importArg c none t = .user .decode := rfl
+
+/-- The same for a whole argument list (`importValidatedArguments`). -/
 theorem import_args_total (c : Ctx) (args : List (Option XV)) (params : List Ty) :
     (∃ vs, importArgs c args params = .ok vs) ∨ (∃ s, importArgs c args params = .user s) :=
   importArgs_total c args params
 
+/-- A mismatch of argument and parameter counts is the parameter-count user error. -/
 theorem import_args_count (c : Ctx) (args : List (Option XV)) (params : List Ty)
     (h : args.length ≠ params.length) : importArgs c args params = .user .count :=
   importArgs_count c args params h
@@ -38,5 +56,61 @@ theorem import_args_sound (c : Ctx) (args : List (Option XV)) (params : List Ty)
     ∀ i (hi : i < vs.length) (hp : i < params.length),
       importable c vs[i] = true ∧ c.subSema (dynType c vs[i]) params[i] = true ∧ conforms c vs[i] = true :=
   importArgs_ok c args params vs h
+
+/-- The Boolean checks imply the declarative deep conditions (used by the driver to judge the value
+    that Go hands to the script, independently of the model's import). -/
+theorem importable_means_deep (c : Ctx) (v : IV) (h : importable c v = true) :
+    ∀ w ∈ subvalues v, ImportableHere c w := importable_deep c v h
+
+theorem conforms_means_deep (c : Ctx) (v : IV) (h : conforms c v = true) :
+    ∀ w ∈ subvalues v, ConformsHere c w := conforms_deep c v h
+
+/-! ### Non-vacuity: a concrete context and concrete arguments -/
+
+section Examples
+def exS : Decl := { kind := .struct, ty := .comp "S" .struct [] false, fields := [("x", .prim "Int")], importable := true }
+def exR : Decl := { kind := .resource, ty := .comp "R" .resource [] false, fields := [], importable := false }
+def exCtx : Ctx := {
+  decls := fun id => if id == "S" then some exS else if id == "R" then some exR else none
+  sub := fun a b => a == b || b == .prim "AnyStruct"
+  subSema := fun a b => a == b || b == .prim "AnyStruct"
+  semaSub := fun a b => a == b
+  lcs := fun ts => ts.head? }
+
+def stageOf : Outcome IV → Option Stage
+  | .user s => some s
+  | _ => none
+def accepted : Outcome IV → Bool
+  | .ok _ => true
+  | _ => false
+
+/-- accepted: `[S(x: 1)]` for `[S]` -/
+example : accepted (importArg exCtx (some (.arr (.cons (.comp .struct "S" (.cons "x" (.num "Int" 1) .nil)) .nil))) (.varArr exS.ty)) = true := by decide
+/-- wrong field type, nested: rejected as malformed -/
+example : stageOf (importArg exCtx (some (.arr (.cons (.comp .struct "S" (.cons "x" (.str "61") .nil)) .nil))) (.varArr exS.ty))
+    = some .malformed := by decide
+/-- missing field: malformed; wrong type at the top: type error; resource under AnyStruct: not importable;
+    unknown type ID and function values: import error -/
+example : stageOf (importArg exCtx (some (.comp .struct "S" .nil)) exS.ty) = some .malformed := by decide
+example : stageOf (importArg exCtx (some (.bool true)) exS.ty) = some .type_ := by decide
+example : stageOf (importArg exCtx (some (.comp .resource "R" .nil)) (.prim "AnyStruct")) = some .notImportable := by decide
+example : stageOf (importArg exCtx (some (.comp .struct "Nope" .nil)) (.prim "AnyStruct")) = some .import_ := by decide
+example : stageOf (importArg exCtx (some .func) (.prim "AnyStruct")) = some .import_ := by decide
+end Examples
+
+/-
+`export_roundtrips` (second sentence of the property: every value a script returns exports to a value
+that round-trips through JSON-CDC and CCF) — STATED, NOT PROVED here:
+
+  theorem export_roundtrips (v : IV) (hv : exportable v) :
+      Codec.Json.decode (Codec.Json.encode (export v)) = some (Codec.Json.erase (export v)) ∧
+      Codec.Ccf.decode (Codec.Ccf.encode (export v)) = some (export v)
+
+It needs an `export : IV → CValue` port of `exportValue` into the value algebra of the codec models
+(`Verif.Model.Codec.CValue`, properties C41 / C42, still being built) and the statement that the
+image of `export` lies in the domain of their round-trip theorems (`Properties/C41`, `C42`).  The
+`args` stream exercises the composition on the Go side only: every accepted argument is returned by
+the script, exported by `ExportValue`, and its printed form is compared with the model's value.
+-/
 
 end Verif.Properties.C29
